@@ -22,7 +22,7 @@ import (
 	"verif/harness/internal/fw"
 )
 
-var c16Ops = []string{"shutdown", "getlistener", "register-new", "register-dup", "client-call", "client-abort", "ctx-cancel", "client-more"}
+var c16Ops = []string{"shutdown", "getlistener", "register-new", "register-dup", "client-call", "client-abort", "ctx-cancel", "client-more", "held-calls"}
 
 type c16Case struct {
 	Ops     []string `json:"ops"`
@@ -38,6 +38,13 @@ func c16Tuple(r *fw.Run, c *c16Case, idx int) {
 	}
 	log := newEvLog(r)
 	svc.RegisterInterface(&ScriptDisp{Name: "org.example.script", Desc: defaultDesc("org.example.script"), Log: log})
+	// 0 .. 4 further interfaces (the length and spare capacity of the service's tables vary from case to case); the names a
+	// "register-new" operation adds sort in front of all of them (seeded change C16-O: an in-place sort of the name list
+	// while a handler encodes a snapshot of it)
+	for k := 0; k < idx%5; k++ {
+		n := fmt.Sprintf("org.zeta.z%d", k)
+		svc.RegisterInterface(&ScriptDisp{Name: n, Desc: defaultDesc(n), Log: log})
+	}
 	p := filepath.Join(r.WorkDir, fmt.Sprintf("rc%d", r.Seq()))
 	addr := "unix:" + p
 	ctx, cancel := context.WithCancel(context.Background())
@@ -101,7 +108,7 @@ func c16Tuple(r *fw.Run, c *c16Case, idx int) {
 					svc.GetListener()
 				}
 			case "register-new":
-				svc.RegisterInterface(&ScriptDisp{Name: fmt.Sprintf("org.example.new%d", i), Desc: "interface x.y\nmethod M()->()", Log: log})
+				svc.RegisterInterface(&ScriptDisp{Name: fmt.Sprintf("org.alpha.new%d", i), Desc: "interface x.y\nmethod M()->()", Log: log})
 			case "register-dup":
 				svc.RegisterInterface(&ScriptDisp{Name: "org.example.script", Desc: "interface x.y\nmethod M()->()", Log: log})
 			case "client-call", "client-more":
@@ -125,6 +132,28 @@ func c16Tuple(r *fw.Run, c *c16Case, idx int) {
 					conn.Close()
 				}
 				ccancel()
+			case "held-calls":
+				// introspection on the connection that was open before the operations began: it is still served while a
+				// Shutdown drains the service (when registrations are accepted again)
+				if held != nil {
+					buf := make([]byte, 8192)
+					for k := 0; k < 12; k++ {
+						m := `{"method":"org.varlink.service.GetInfo"}`
+						if k%3 == 2 {
+							m = `{"method":"org.varlink.service.GetInterfaceDescription","parameters":{"interface":"org.zeta.z0"}}`
+						}
+						held.SetDeadline(time.Now().Add(5 * time.Second))
+						if _, err := held.Write([]byte(m + "\x00")); err != nil {
+							break
+						}
+						for {
+							n, err := held.Read(buf)
+							if err != nil || (n > 0 && buf[n-1] == 0) {
+								break
+							}
+						}
+					}
+				}
 			case "client-abort":
 				if rc, err := net.DialTimeout("unix", p, time.Second); err == nil {
 					rc.Write([]byte(`{"method":"org.varlink.service.GetInfo"}` + "\x00" + `{"method":"org.example.scr`))
@@ -479,7 +508,9 @@ func runC16(r *fw.Run) {
 		// the triples that put a registration attempt next to a Shutdown and live handlers
 		for rep := 0; rep < 4; rep++ {
 			tuples = append(tuples, []string{"shutdown", "register-new", "client-call"}, []string{"shutdown", "register-new", "register-new"},
-				[]string{"shutdown", "register-new", "client-more"}, []string{"shutdown", "register-dup", "client-call"})
+				[]string{"shutdown", "register-new", "client-more"}, []string{"shutdown", "register-dup", "client-call"},
+				[]string{"shutdown", "register-new", "held-calls"}, []string{"shutdown", "register-new", "held-calls"},
+				[]string{"shutdown", "register-new", "register-new", "held-calls"})
 		}
 	}
 	if r.Thorough {
